@@ -103,12 +103,15 @@ def lfsr_protocol(bitwidth, seed=1, n=12):
     return dict(failed=False, observed='ok', expected='ok')
 
 
-def xoroshiro_protocol(bitwidth, seed=1, n=4):
+def xoroshiro_protocol(bitwidth, seed=1, n=4, special=None):
     import pyrtl
     rnd = random.Random(seed)
     build('xoroshiro', bitwidth)
     sim = pyrtl.Simulation()
     sd = rnd.getrandbits(128) | 1
+    if special is not None:
+        # seeds with a structure random seeds never have: low word zero, high word zero, one bit, all ones
+        sd = [1 << 64, 0x9e3779b97f4a7c15 << 64, 0x9e3779b97f4a7c15, 1, (1 << 128) - 1, 1 << 127][special]
     sim.step({'load': 1, 'req': 0, 'seed': sd})
     s0, s1 = sd & M64, sd >> 64
     words = (bitwidth + 63) // 64
